@@ -174,12 +174,13 @@ def job_api(j):
                                             replay=dict(part='api', cfg=cfg, transport=transport, seed=seed),
                                             detail=dict(sensor=sid, cause=cause, fill=k, model=cfg['tag'], rated=cfg['power'])))
     # (the last pass repeats one fill with the library's logging at its default level instead of DEBUG)
-    for k in list(range(FILLS)) + ['default-logging']:
+    for k in list(range(FILLS)) + ['default-logging', 'overlapped', 'overlapped+ka']:
         world.reset()
         world.set_debug_logging(k != 'default-logging')
-        if k == 'default-logging':
+        mode = k if isinstance(k, str) else ''
+        if isinstance(k, str):
             k = 2
-        r = make_rig(cfg, transport, fill=api_fill(k, seed))
+        r = make_rig(cfg, transport, fill=api_fill(k, seed), ka=mode.endswith('+ka'))
         inv = r.inv
         if fam == 'ES':
             f = api_fill(k, seed)
@@ -188,11 +189,26 @@ def job_api(j):
         if r.call(inv.read_device_info)[0] != 'ok':
             continue
         l0 = len(r.dev.log)
-        st = r.call(inv.read_runtime_data)
+        if mode.startswith('overlapped'):
+            # the poll runs while other calls on the same object are pending / queued (single reads of other registers)
+            import asyncio
+            others = [x.id_ for x in inv.sensors() if own_span(x)]
+
+            async def overlapped():
+                res = await asyncio.gather(inv.read_runtime_data(), inv.read_sensor(others[0]), inv.read_sensor(others[-1]),
+                                           inv.read_setting('grid_export_limit'), return_exceptions=True)
+                if isinstance(res[0], BaseException):
+                    raise res[0]
+                return res[0]
+            st = r.call(overlapped)
+        else:
+            st = r.call(inv.read_runtime_data)
         if st[0] != 'ok':
             continue
         d = st[1]
-        windows = [(q['reg'], q['reg'] + q['count'] - 1) for q in r.dev.log[l0:] if q.get('fn') == 3]
+        # (blocks of the poll only: the overlapped single reads fetch at most 4 registers)
+        windows = [(q['reg'], q['reg'] + q['count'] - 1) for q in r.dev.log[l0:] if q.get('fn') == 3 and
+                   (not mode.startswith('overlapped') or q['count'] > 8)]
         ids = [s.id_ for s in inv.sensors()]
         for s in inv.sensors():
             if not own_span(s) or s.id_ not in d:
@@ -217,7 +233,8 @@ def job_api(j):
             n += 1
             df = compare(s, got, ref)
             if df:
-                bad(f'api:documented-reading/{fam}/{tname(s)}', s.id_, f'{s.id_} @{s.offset} = {own.hex()}: {df}', k)
+                bad(f'api:documented-reading/{fam}/{tname(s)}' + ('/overlapping-calls' if mode.startswith('overlapped') else ''),
+                    s.id_, f'{s.id_} @{s.offset} = {own.hex()}: {df}' + (f' ({mode})' if mode else ''), k)
     world.set_debug_logging(True)
     # single reads through both entry points, in both orders, on one object: read_sensor(id) / read_setting(id) report the
     # documented reading of THAT item's registers (ids may name a sensor and a setting at different addresses)
